@@ -22,6 +22,9 @@ VARIANTS = {
     'model-join-table': 'select * from mindsdb.pred as m join int1.t1 as t where {W}',
     'on-columns-map': 'select * from int1.t1 as t join mindsdb.pred as m on t.a = m.k where {W}',
     'using': 'select * from int1.t1 as t join mindsdb.pred as m where {W} using Opt1 = 1, m.opt2 = \'x\'',
+    # option names that contain dots themselves, addressed to the model by its alias (the alias is the FIRST part only)
+    'using-dotted-keys': 'select * from int1.t1 as t join mindsdb.pred as m where {W} using Opt1 = 1, m.opt2 = \'x\', '
+                         'm.engine.mode = \'fast\', m.A.b.c.d = 2, m.m.m = 3',
     'two-tables': 'select * from int1.t1 as t join int2.t2 as u on t.a = u.a join mindsdb.pred as m where {W}',
     # names that collide: the table's alias is the model's real name; another table's real name is the model's alias
     'table-alias-is-model-name': 'select * from int1.t1 as pred join mindsdb.pred as m where {W}',
@@ -281,8 +284,10 @@ def run(ctx):
         if r.get('dataframe_kind') not in ('FetchDataframeStep', 'JoinStep', 'SubSelectStep', 'QueryStep'):
             ctx.violation('model-input:%s' % v, 'the model is not applied to the result of the data it is joined to',
                           {'sql': r['sql'], 'steps': r['kinds'], 'dataframe': r.get('dataframe')}, pin=(key, r.get('dataframe_kind')))
-        if v == 'using':
+        if v in ('using', 'using-dotted-keys'):
             want = {'opt1': 1, 'opt2': 'x'}
+            if v == 'using-dotted-keys':
+                want.update({'engine.mode': 'fast', 'a.b.c.d': 2, 'm.m': 3})
             got = {k_.lower(): v_ for k_, v_ in (r.get('params') or {}).items()}
             if got != want:
                 ctx.violation('using-options:%s' % v, 'USING options do not reach the model unchanged (apart from key case)',
